@@ -8,6 +8,40 @@ HERE = os.path.dirname(os.path.dirname(os.path.abspath(__file__)))
 
 # id -> (level, technique, text, note, design_ref)
 CHECKS = {
+    'C17': ('exploration',
+            'Hypothesis generation over the presence/well-formed/ill-formed lattice of optional keywords; '
+            'differential vs an independent keyword-to-attribute derivation; never-raises oracle',
+            'Generated files combine absent / well-formed (every accepted time and date format) / ill-formed '
+            'values of $TIMESTEP, TIMETICKS, $BTIM, $ETIM, $DATE, $PnV, $PnG, $PnS, CREATOR, BD$WORDn, CytekPnnG '
+            'with time channels (0, 1 in any letter case, 2), versions and $PnE spellings; loading must succeed '
+            'and every attribute, accessor and the acquisition duration must equal the independently derived '
+            'value.',
+            'Trusted: derivation in pbt/props/c17.py. Where the statement leaves the winner open (ill-formed '
+            'standard keyword + fallback keyword) both outcomes are accepted.',
+            'DESIGN.md section 4, C17'),
+    'C20': ('exploration',
+            'Hypothesis generation of samples x operation histories (<=3) x duplication methods, interpreted as '
+            'op lists; public-fingerprint equality; mutate-one-side independence; FCSFile ==/!= on byte-isolated '
+            'file pairs',
+            'After a generated history (channel/event slicing, to_rfi, to_mef, gates) a sample is duplicated by '
+            'copy(), copy.copy, deepcopy, view() or pickle protocol 0..5; the duplicate must have the same public '
+            'fingerprint, be an FCSData, and be independent in text, analysis, ranges and (except views) events. '
+            'Two loads of one path are equal with equal hashes; loads of files differing in one event, one '
+            'keyword value or one ANALYSIS value (all other bytes identical) are unequal.',
+            'Trusted: the public fingerprint (pbt/samples.py) as the notion of equality.',
+            'DESIGN.md section 4, C20'),
+    'C04': ('exploration',
+            'exhaustive enumeration of the index-key grammar on all shapes <=3x3 + Hypothesis chains/assignments '
+            'on larger shapes; differential vs ndarray indexing plus a column-list metadata model; model-free '
+            'alignment check through origin-encoding cells',
+            '1.32 M (rows x cols) keys on the nine shapes N,D<=3 are compared with plain ndarray indexing '
+            '(values, refusals) and with the metadata of the selected columns; other forms NumPy accepts must be '
+            'refused or aligned; single values are scalars. Hypothesis adds shapes up to 12x8, chains of up to '
+            'three keys and assignment through the same keys. Complete for the enumerated grammar on those '
+            'shapes only.',
+            'Trusted: numpy indexing as reference; cells encode their origin; chains continue from 2-D '
+            'intermediates only.',
+            'DESIGN.md section 4, C04'),
     'C01': ('exploration',
             'Hypothesis generation of event matrices x FCS layouts encoded by an independent writer; round-trip '
             'oracle (decoded == written, masked by the declared range); refusal of unsupported layouts',
